@@ -1,6 +1,6 @@
 (* PV.C10.Properties — the property theorems of C10 and nothing else. *)
 From Coq Require Import QArith List Bool PArith Arith.
-From PV Require Import Base.PyData Base.Expr Base.Stmts C10.Model C10.Proofs C10.ProofsRsd.
+From PV Require Import Base.PyData Base.Expr Base.Stmts C10.Model C10.Proofs C10.ProofsRsd C10.ProofsSubs.
 
 (* Expanding an expression to its full definition evaluates to the same value as executing the
    statements in order: for every statement list without a compartmental system (on which the
@@ -94,3 +94,12 @@ Theorem remove_symbol_definitions_preserves :
 Proof.
   intros fi ode l syms ri r x H. apply remove_safe_preserves; [apply rsd_safe | exact H].
 Qed.
+
+(* Statements.subs as a program edit: substituting never-assigned symbols by expressions over
+   never-assigned symbols equals running the original program in the environment in which those
+   symbols have the values of their replacements (all programs without a system, all maps). *)
+Theorem subs_leaf_is_environment_update :
+  forall (fi : finterp) (ode : id -> list (option Q) -> option Q) (m : list (id * expr)) (l : list stmt) (r : env) (x : id),
+    g_subs_leaf m l = true -> alookup m x = None ->
+    exec fi ode r (subs_stmts m l) x = exec fi ode (upd_map r fi m) l x.
+Proof. exact subs_leaf_sound. Qed.
